@@ -88,13 +88,19 @@ func ResolveFSContractWithNNS(nns, contractName) (r)
 func ResolveFSContract(name) (r)
   ensures store == old(store) && notifs == old(notifs)
 
+// legacy (pre-notary) source of the Inner Ring list: a read-only call, nothing changes
+func InnerRingNodesFromNetmap(sc) (r)
+  ensures store == old(store) && notifs == old(notifs)
+  loop 0
+    invariant store == old(store) && notifs == old(notifs)
+
 func SubscribeForNewEpoch()
   ensures store == old(store) && notifs == old(notifs)
 @*/
 
 /*@
 module vote
-props C17
+props C16 C17
 dialect neovm
 
 // C17: vote collection (notary-disabled mode of the main-chain contract).
@@ -162,6 +168,16 @@ func Vote(ctx, id, from) (n)
   loop 1
     invariant store == old(store) && voters == cnd.Voters
     invariant forall t Int {voters[t]} :: 0 <= t && t < j ==> voters[t] != from
+
+// used by the notary migrations (C16): removes the ballot list only if no vote is in progress, otherwise changes nothing
+func TryPurgeVotes(ctx) (r)
+  ensures [C16] r ==> !store.has("ballots") && (forall k Bytes {store.opt(k)} :: k != "ballots" ==> store.opt(k) == old(store).opt(k))
+  ensures [C16] r ==> forall q Int {ballots(old(store))[q]} :: 0 <= q && q < len(ballots(old(store))) ==> !live(ballots(old(store))[q])
+  ensures [C16] !r ==> store == old(store)
+  ensures notifs == old(notifs)
+  loop 0
+    invariant store == old(store) && notifs == old(notifs) && candidates == ballots(old(store))
+    invariant forall q Int {candidates[q]} :: 0 <= q && q < $i ==> !live(candidates[q])
 
 // removes the first ballot for id (a fired decision must not fire again); nothing else changes
 func RemoveVotes(ctx, id)
